@@ -38,6 +38,70 @@ def _shard_worker(args):
     return col.to_dict()
 
 
+FUZZ_WORKERS = int(os.environ.get("VERIF_FUZZ_WORKERS", "8"))
+
+
+def _fuzz_stage(mod, prop: str, tier: str, seed: int, col: Collector) -> dict:
+    """Coverage-guided stage (thorough tier): atheris workers over the sub-checks that ask for it.
+    Their results are merged like shard results; a worker that is lost only shows in the evidence."""
+    import re
+    import shutil
+    import subprocess
+    import tempfile
+    from concurrent.futures import ThreadPoolExecutor
+
+    subs = [s for s in mod.SUBS if s.fuzz_runs and s.strategy is not None]
+    if not subs or os.environ.get("VERIF_NO_FUZZ"):
+        return {}
+    try:
+        import atheris  # noqa: F401
+    except Exception as e:  # noqa: BLE001
+        return {"fuzz": {"skipped": f"atheris not importable: {type(e).__name__}"}}
+    tmp = tempfile.mkdtemp(prefix="verif-fuzz-")
+    stats: dict = {}
+
+    def work(job):
+        sub, w = job
+        out = os.path.join(tmp, f"{sub.name}-{w}.json")
+        err = os.path.join(tmp, f"{sub.name}-{w}.err")
+        wseed = runner.derive_seed(seed, prop, sub.name, "fuzz", w) % (2**31 - 1) + 1
+        cmd = [sys.executable, "-m", "vlib.fuzz", prop, sub.name, tier, str(wseed), str(sub.fuzz_runs), out, os.path.join(tmp, f"corpus-{sub.name}-{w}")]
+        with open(err, "w") as ef:
+            try:
+                subprocess.run(cmd, stdout=ef, stderr=ef, timeout=sub.budget_thorough, check=False)
+            except subprocess.TimeoutExpired:
+                pass
+        cov = ft = 0
+        try:
+            with open(err, errors="replace") as ef:
+                for m in re.finditer(r"cov: (\d+) ft: (\d+)", ef.read()):
+                    cov, ft = int(m.group(1)), int(m.group(2))
+        except OSError:
+            pass
+        d = None
+        if os.path.exists(out):
+            with open(out) as f:
+                d = json.load(f)
+        return sub.name, d, cov, ft
+
+    try:
+        with ThreadPoolExecutor(max(1, NSHARDS)) as ex:
+            for name, d, cov, ft in ex.map(work, [(s, w) for s in subs for w in range(FUZZ_WORKERS)]):
+                st = stats.setdefault(name, {"workers": 0, "lost_workers": 0, "inputs": 0, "cases_evaluated": 0, "edges_covered_max": 0, "features_max": 0})
+                st["workers"] += 1
+                if d is None:
+                    st["lost_workers"] += 1
+                    continue
+                st["inputs"] += d.get("fuzz_inputs", 0)
+                st["cases_evaluated"] += d["evaluations"]
+                st["edges_covered_max"] = max(st["edges_covered_max"], cov)
+                st["features_max"] = max(st["features_max"], ft)
+                col.merge(d)
+    finally:
+        shutil.rmtree(tmp, ignore_errors=True)
+    return {"fuzz": stats}
+
+
 def _replay_corpus(mod, col: Collector) -> int:
     d = os.path.join(VERIF, "replays", mod.PROPERTY_ID)
     n = 0
@@ -123,9 +187,14 @@ def main(argv: list[str]) -> int:
                 col.merge(d)
 
     extra = {}
+    if tier == "thorough":
+        try:
+            extra.update(_fuzz_stage(mod, prop, tier, seed, col))
+        except Exception as e:  # noqa: BLE001
+            col.harness_errors.append(f"fuzz stage: {type(e).__name__}: {e}")
     if hasattr(mod, "extra_evidence"):
         try:
-            extra = mod.extra_evidence(tier) or {}
+            extra.update(mod.extra_evidence(tier) or {})
         except Exception as e:  # noqa: BLE001
             col.harness_errors.append(f"extra_evidence: {type(e).__name__}: {e}")
 
